@@ -790,7 +790,7 @@ class Gen(object):
         # diverge, the second cannot be observed by a test run
         k = rng.randrange(1, len(names) + 1)
         self.lower = set(names[k:])
-        self.use_match = rng.random() < 0.45
+        self.use_match = rng.random() < (0.9 if self.zone else 0.45)
         self.macros = ['m0', 'm1'] if rng.random() < 0.5 else []
         self.data = {
             's0': rng.choice(['', 'v', 'w&']), 's1': rng.choice(['', 'z']),
@@ -849,6 +849,8 @@ class Gen(object):
             # sometimes the include that brings in another library comes first
             pre.insert(0, self.include(1, ['s0', 's1'], ['l0'], False, False))
         body = pre + self.nodes(3, ['s0', 's1'], ['l0'], False, False)
+        if self.zone and self.kind == 'markup' and self.use_match and rng.random() < 0.6:
+            body.insert(rng.randrange(0, len(body) + 1), ['elem', rng.choice(MATCH_TAGS), self.nodes(1, ['s0', 's1'], ['l0'], True, False)])
         if self.kind == 'markup':
             return [['elem', rng.choice(PLAIN_TAGS), body]]
         return body
@@ -901,6 +903,16 @@ class Gen(object):
         n = rng.randrange(0, 4) if depth < 3 else rng.randrange(1, 5)
         for _ in range(n):
             out.append(self.node(depth, svars, lvars, zone, in_fb))
+        if self.zone and zone and self.kind == 'markup' and rng.random() < 0.5:
+            # outside the hypothesis on purpose: a statically named include (or a matchable
+            # element) right where the match window is restricted
+            pick = rng.random()
+            if pick < 0.6:
+                to = self.target()
+                parse = 'text' if kind_of(to) == 'text' else None
+                out.insert(rng.randrange(0, len(out) + 1), ['include', ['static', rel_href(rng, self.here, to)], parse, None])
+            else:
+                out.insert(rng.randrange(0, len(out) + 1), ['elem', rng.choice(MATCH_TAGS), []])
         return out
 
     def node(self, depth, svars, lvars, zone, in_fb):
